@@ -32,11 +32,13 @@ import (
 	"path/filepath"
 	"regexp"
 	"runtime"
+	"runtime/debug"
 	"runtime/pprof"
 	"sort"
 	"strconv"
 	"strings"
 	"sync"
+	"syscall"
 	"time"
 
 	"github.com/BurntSushi/toml"
@@ -262,8 +264,9 @@ var destRanges = map[string][2]int{
 }
 
 func (g *gen) dest(allowMatcher, allowSpoolTrue, instance bool) DestSpec {
-	// unique per destination: 127.20.<case-derived>.<n>:<dead port>
-	d := DestSpec{Addr: fmt.Sprintf("127.20.%d.%d:%d", 1+g.idx%250, g.id(), g.r.PickInt(deadPorts))}
+	// unique per destination: 127.<case-derived>.<n/250>.<n%250>:<dead port>
+	n := g.id()
+	d := DestSpec{Addr: fmt.Sprintf("127.%d.%d.%d:%d", 20+g.idx%200, n/250, 1+n%250, g.r.PickInt(deadPorts))}
 	if instance {
 		d.Addr += ":" + fmt.Sprintf("inst%d", g.id())
 	}
@@ -435,9 +438,9 @@ func kindOf(seed uint64, idx int) string {
 		return "blacklist"
 	case x < 12:
 		return "rewriter"
-	case x == 12 && idx%2 == 0:
+	case x < 16: // every aggregator leaks its ticker goroutine: rationed (see main)
 		return "aggregation"
-	case x == 13:
+	case x < 18:
 		return "mixed"
 	}
 	return "carbon"
@@ -449,7 +452,7 @@ func genCase(seed uint64, idx int) Case {
 	c := Case{Index: idx, Kind: kindOf(seed, idx), ViaInit: r.Bool()}
 	// spooling destinations leak one goroutine each when shut down (NewSlowChan never ends):
 	// rationed in the thorough tier so that the race detector's goroutine limit is never near.
-	allowSpool := !mon.Thorough() || r.Intn(80) == 0
+	allowSpool := !mon.Thorough() || r.Intn(20) == 0
 	switch c.Kind {
 	case "blacklist":
 		for i, n := 0, r.Range(1, 4); i < n; i++ {
@@ -1248,6 +1251,7 @@ func (w *worker) runCase(res *mon.Result, c Case, scratch string, watch *gnWatch
 		spool := filepath.Join(scratch, "spool", fmt.Sprintf("%d-%s", c.Index, syntax))
 		var t *tbl
 		var err error
+		tb := time.Now()
 		if syntax == "toml" {
 			t, err = buildFromTOML(tomlText, spool)
 		} else if c.ViaInit {
@@ -1257,6 +1261,7 @@ func (w *worker) runCase(res *mon.Result, c Case, scratch string, watch *gnWatch
 		}
 		w.pending = append(w.pending, pendingShutdown{t, time.Now()})
 		res.Count("tables_built_"+syntax, 1)
+		res.Count("ms_building_"+syntax, int(time.Since(tb).Milliseconds()))
 		if err != nil {
 			res.Violate(syntax+":rejected:"+c.Kind, fmt.Sprintf("a configuration that uses documented options with legal values only is rejected in its %s form: %v", syntax, err), witness)
 			continue
@@ -1549,7 +1554,7 @@ func runExpand(res *mon.Result, scratch string, nStrings int) (done int) {
 			res.Violate(sig, fmt.Sprintf("configuration text %q is read as %q; with only the documented variables substituted it is %q", in, got[i], want),
 				map[string]interface{}{"input": in, "inputBytes": []byte(in), "got": got[i], "want": want, "variables": e.vals})
 		}
-		res.Eval(1)
+		res.Eval(len(cases))
 	}
 	return done
 }
@@ -1558,11 +1563,11 @@ func runExpand(res *mon.Result, scratch string, nStrings int) (done int) {
 
 func main() {
 	res := mon.NewResult("C20")
-	res.Rule = "part 1: configurations generated from (seed,index): blacklist entries (6 kinds), rewriters (plain/regex, max, not), aggregations (9 command functions + percentiles TOML-only, 6 filter options, sub/substr spellings, cache and dropRaw given true/false/omitted), carbon routes (3 types, 6 filter options, 1-4 destinations each with a random subset of the 18 documented destination options) and grafanaNet routes (all 11 options, booleans true/false/omitted, 1-2 routes per file, sometimes next to a carbon route); each option value unique within its case and never equal to a documented default; each configuration is built from its TOML form and from the equivalent commands (directly, or through an [init] cmds array) and every field is compared with written-value-else-documented-default; evaluation = one configuration (both syntaxes) or one batch of '$'-strings; non-trivial = at least one option given and one left to its default and both syntaxes built; distinct = distinct given/omitted patterns (values ignored). part 2: '$'-strings from a grammar of documented references, near misses, group references ($1 ${1} ${1}x), $$ ${} unterminated braces, shell specials, non-ASCII bytes, read through the real readConfigFile in the real binary; non-trivial = contains a documented reference and a '$' that must stay. Values are restricted to what the command grammar can express at all: no blanks, no quotes or '#', not all digits, not starting with true/false or a command keyword. kafkaMdm, pubsub and cloudWatch routes cannot be constructed offline (brokers / credentials) and are out of scope."
+	res.Rule = "part 1: configurations generated from (seed,index): blacklist entries (6 kinds), rewriters (plain/regex, max, not), aggregations (9 command functions + percentiles TOML-only, 6 filter options, sub/substr spellings, cache and dropRaw given true/false/omitted), carbon routes (3 types, 6 filter options, 1-4 destinations each with a random subset of the 18 documented destination options) and grafanaNet routes (all 11 options, booleans true/false/omitted, 1-2 routes per file, sometimes next to a carbon route); each option value unique within its case and never equal to a documented default; each configuration is built from its TOML form and from the equivalent commands (directly, or through an [init] cmds array) and every field is compared with written-value-else-documented-default; evaluation = one configuration (both syntaxes) or one '$'-string; non-trivial = at least one option given and one left to its default and both syntaxes built; distinct = distinct given/omitted patterns (values ignored). part 2: '$'-strings from a grammar of documented references, near misses, group references ($1 ${1} ${1}x), $$ ${} unterminated braces, shell specials, non-ASCII bytes, read through the real readConfigFile in the real binary; non-trivial = contains a documented reference and a '$' that must stay. Values are restricted to what the command grammar can express at all: no blanks, no quotes or '#', not all digits, not starting with true/false or a command keyword. kafkaMdm, pubsub and cloudWatch routes cannot be constructed offline (brokers / credentials) and are out of scope."
 	res.Assume("the documentation (docs/config.md, docs/tcp-admin-interface.md, docs/aggregation.md, docs/rewriting.md, examples/carbon-relay-ng.ini) is the specification; 2M = 2 000 000, 10k = 10 000, 200MiB = 200*1024*1024")
 	res.Assume("${HOST} is the first label of os.Hostname() of the machine running the check")
 	res.Assume("table.MockTable (embedded, with GetSpoolDir overridden to a scratch directory) receives exactly what the real table would")
-	res.Assume("grafanaNet routes are inspected but never shut down (known defect F7); destinations point at loopback addresses nothing listens on (127.20.x.y, ports 2000-2999)")
+	res.Assume("grafanaNet routes are inspected but never shut down (known defect F7); destinations point at loopback addresses nothing listens on (127.20-219.x.y, ports 1-16, checked at start-up)")
 	res.Assume("the read-only accessors under /verif/access/{destination,route,nsqd,cmd/carbon-relay-ng} copy fields and call readConfigFile; they change nothing")
 
 	if pf := os.Getenv("C20_PROF"); pf != "" {
@@ -1570,6 +1575,7 @@ func main() {
 		pprof.StartCPUProfile(f)
 		defer pprof.StopCPUProfile()
 	}
+	debug.SetGCPercent(400) // many short-lived tables; memory is not the scarce resource here
 	mon.InitRepo()
 	stdlog.SetOutput(io.Discard)
 	scratch := mon.Scratch()
@@ -1601,9 +1607,12 @@ func main() {
 
 	// part 1. The cases are independent (one table each), so several are built at a time: the
 	// command tokenizer of the code under test needs 0.1-0.5 s of CPU per long command under -race.
-	n := mon.N(400, 12000)
+	n := mon.N(320, 10000)
 	ngn := mon.N(24, 64)
-	nw := 6
+	if v, err := strconv.Atoi(os.Getenv("C20_N")); err == nil && v > 0 { // development aid only
+		n = v
+	}
+	nw := 8
 	if v, err := strconv.Atoi(os.Getenv("C20_WORKERS")); err == nil && v > 0 {
 		nw = v
 	}
@@ -1679,6 +1688,11 @@ func main() {
 	}
 	res.Set("options_given_by_name", cov.set)
 	res.Set("options_omitted_by_name", cov.omitted)
+	var ru, ruc syscall.Rusage
+	syscall.Getrusage(syscall.RUSAGE_SELF, &ru)
+	syscall.Getrusage(syscall.RUSAGE_CHILDREN, &ruc)
+	res.Set("cpu_s_check_process", int(ru.Utime.Sec+ru.Stime.Sec))
+	res.Set("cpu_s_children_relay_build_and_runs", int(ruc.Utime.Sec+ruc.Stime.Sec))
 	res.Set("goroutines_at_end", runtime.NumGoroutine())
 	buf := make([]byte, 1<<24)
 	stack := buf[:runtime.Stack(buf, true)]
